@@ -28,7 +28,7 @@ use std::marker::PhantomData;
 pub struct Tr<F, const TOPO: u8, const L0: u8, const L1: u8, const L2: u8>(PhantomData<F>);
 
 impl<F: Fl, const TOPO: u8, const L0: u8, const L1: u8, const L2: u8> Prog for Tr<F, TOPO, L0, L1, L2> {
-    const NACT: usize = if TOPO <= 3 { 3 } else { 2 };
+    const NACT: usize = if TOPO <= 3 || TOPO == 6 { 3 } else { 2 };
     const LEN: [u8; MAXACT] = [L0, L1, L2, 0];
     const BASE: [usize; MAXACT] = [0, 4, 8, 0];
     #[inline(always)]
@@ -37,8 +37,9 @@ impl<F: Fl, const TOPO: u8, const L0: u8, const L1: u8, const L2: u8> Prog for T
             (_, 0) => op_send::<F>(k, 0, 1 + k as u8),
             (1, 1) => op_send::<F>(4 + k, 1, 3 + k as u8),
             (1, _) => op_recv::<F>(8 + k, 0),
-            (2, 1) | (3, 1) | (4, 1) => op_recv::<F>(4 + k, 0),
+            (2, 1) | (3, 1) | (4, 1) | (6, 1) => op_recv::<F>(4 + k, 0),
             (2, _) | (3, _) => op_recv::<F>(8 + k, 1),
+            (6, _) => op_drop_rx::<F>(8 + k, 1),
             (_, _) => op_u_view::<F>(4 + k, 0),
         }
     }
@@ -83,7 +84,7 @@ pub fn traffic<F: Fl, const TOPO: u8, const OUTER: usize, const L0: u8, const L1
         1 => {
             w.tx[1] = Some(F::clone_tx(w.tx[0].as_ref().unwrap()));
         }
-        2 => {
+        2 | 6 => {
             w.rx[1] = Some(F::clone_rx(w.rx[0].as_ref().unwrap()));
         }
         3 => {
@@ -128,6 +129,14 @@ pub fn traffic<F: Fl, const TOPO: u8, const OUTER: usize, const L0: u8, const L1
                 }
                 if k < L2 as usize {
                     ledger::declare_recv(8 + k, 2, 1);
+                }
+            }
+            6 => {
+                if k < L1 as usize {
+                    ledger::declare_recv(4 + k, 1, 0);
+                }
+                if k < L2 as usize {
+                    ledger::declare_other(8 + k, 2);
                 }
             }
             _ => {
@@ -287,13 +296,15 @@ tr!(c04_bc_streams_inclone, hk_c04_bc_streams_inclone, BcT, 3, 1, [2, 1, 1], IN_
 // sole consumer viewing in place; the producer tries to wrap the ring meanwhile
 tr!(c04_bc_view_inview, hk_c04_bc_view_inview, BcT, 5, 1, [3, 1, 0], TrCfg { per_site: 3, ..IN_CLONE });
 tr!(c04_mp_view_inview, hk_c04_mp_view_inview, MpT, 5, 1, [3, 1, 0], TrCfg { per_site: 3, ..IN_CLONE });
+// consumer A is in the middle of clone() when its sibling handle is dropped (consumers 2 -> 1)
+tr!(c06_bc_sibdrop_inclone, hk_c06_bc_sibdrop_inclone, BcT, 6, 1, [2, 1, 1], IN_CLONE);
+tr!(c06_bc_sibdrop_all, hk_c06_bc_sibdrop_all, BcB, 6, 1, [1, 1, 1], TrCfg { pre_send: 2, pre_recv: 1, ..QUICK });
 // all preemption sites, instrumented payload, teardown at the end
 tr!(c04_bc_shared_all, hk_c04_bc_shared_all, BcT, 2, 1, [1, 1, 1], TrCfg { pre_send: 2, pre_recv: 1, teardown: true, ..QUICK });
 tr!(c05_mp_shared_all, hk_c05_mp_shared_all, MpT, 2, 1, [1, 1, 1], TrCfg { pre_send: 2, pre_recv: 1, teardown: true, ..QUICK });
 
-// cost probes
-tr!(x_t1_mp_b1_all, hk_x_t1_mp_b1_all, MpB, 1, 0, [1, 1, 1], TrCfg { budget: 1, ..QUICK });
-tr!(x_t1_mp_b1_wl, hk_x_t1_mp_b1_wl, MpB, 1, 0, [1, 1, 1], TrCfg { budget: 1, kinds: sched::WIN_LOADS, ..QUICK });
-tr!(x_t1_mp_b1_ww, hk_x_t1_mp_b1_ww, MpB, 1, 0, [1, 1, 1], TrCfg { budget: 1, kinds: sched::WIN_WRITES, ..QUICK });
-tr!(x_t1_mp_b1_wo, hk_x_t1_mp_b1_wo, MpB, 1, 0, [1, 1, 1], TrCfg { budget: 1, kinds: sched::WIN_OTHER, ..QUICK });
-tr!(x_t1_mp_b2_wl, hk_x_t1_mp_b2_wl, MpB, 1, 0, [1, 1, 1], TrCfg { budget: 2, kinds: sched::WIN_LOADS, ..QUICK });
+
+// debugging probes
+tr!(x_dbg_td, hk_x_dbg_td, BcT, 2, 1, [1, 1, 1], TrCfg { budget: 0, pre_send: 2, pre_recv: 1, teardown: true, ..QUICK });
+tr!(x_dbg_notd, hk_x_dbg_notd, BcT, 2, 1, [1, 1, 1], TrCfg { budget: 0, pre_send: 2, pre_recv: 1, teardown: false, ..QUICK });
+tr!(x_dbg_u8, hk_x_dbg_u8, BcB, 2, 1, [1, 1, 1], TrCfg { budget: 0, pre_send: 2, pre_recv: 1, teardown: false, ..QUICK });
